@@ -6,6 +6,7 @@ pub mod chain;
 pub mod crash;
 pub mod infra;
 pub mod ledger;
+pub mod onchain;
 pub mod oracle;
 pub mod sched;
 pub mod world;
@@ -48,10 +49,16 @@ fn run_world(mut wd: World, mut rng: Option<Rng>, trace: Option<Vec<Action>>, se
 			if !wd.dead {
 				wd.apply(&Action::Settle);
 			}
+			if !wd.dead && !wd.strict_offchain {
+				wd.apply(&Action::Liquidate);
+			}
 		},
 	}
-	if !wd.dead && wd.trace.last() == Some(&Action::Settle) {
+	if !wd.dead && matches!(wd.trace.last(), Some(&Action::Settle) | Some(&Action::Liquidate)) {
 		wd.final_oracles();
+		if wd.trace.last() == Some(&Action::Liquidate) {
+			wd.wealth_oracle(&[]);
+		}
 	}
 	let progressed = wd.out.counters.get("event:PaymentSent").copied().unwrap_or(0)
 		+ wd.out.counters.get("event:PaymentFailed").copied().unwrap_or(0)
